@@ -5,7 +5,7 @@
                     Y<syslog ident> F<path> Z<size|-> C<count|-> M<n> {type cat text tid time}*n
      one-line case: E<tty_out><tty_err> F<path> Z<size> C<count> B<startup daily compress async> M<n> {msg}*n
        type: d w c f i (debug warning critical fatal info), rule type '-' = untyped
-       rx:   - | c:<hex> | p:<hex> | s:<hex>     tok: l:<hex> | m | t | c
+       rx:   - | c:<hex> | p:<hex> | s:<hex>     tok: l:<hex> | m | t | c | i:<type> (%{if-type}) | e (%{endif})
        B of an ini case: stdout stdout_color stderr stderr_color platform_std_log rotate_on_startup
                          rotate_daily compress_old_files async
    modes
@@ -53,7 +53,7 @@ let parse_ini toks =
   let x = expect toks 'X' in
   let rx = if x = "-" then None else Some (match x.[0] with 'c' -> RxContains (unhex (after2 x)) | 'p' -> RxPrefix (unhex (after2 x)) | _ -> RxSuffix (unhex (after2 x))) in
   let np = int_of_string (expect toks 'P') in
-  let pat = List.init np (fun _ -> let t = take toks in match t.[0] with 'l' -> PLit (unhex (after2 t)) | 'm' -> PMessage | 't' -> PType | _ -> PCategory) in
+  let pat = List.init np (fun _ -> let t = take toks in match t.[0] with 'l' -> PLit (unhex (after2 t)) | 'm' -> PMessage | 't' -> PType | 'i' -> PIf (ty t.[2]) | 'e' -> PEndif | _ -> PCategory) in
   let b = expect toks 'B' in
   let sysl = unhex (expect toks 'Y') in
   let path = unhex (expect toks 'F') in
